@@ -5,16 +5,16 @@ SPEC = dict(
     rule="generated write programs (3-7 requests: single statement, several autocommit statements, transaction flag, explicit BEGIN..COMMIT/ROLLBACK "
          "inside a plain request) over five tables of widths 6/4/3/2/2 (items(id INTEGER PRIMARY KEY, name TEXT UNIQUE, qty INTEGER, price REAL, data BLOB, note), ledger, big_tbl, logs(msg TEXT NOT NULL, lvl), "
          "aux_tbl; every program first changes all of them widest first, and every filter that selects more than one table selects two widths), multi-row INSERT [OR IGNORE|FAIL|REPLACE], range UPDATE (also of the rowid), DELETE, values of all five storage classes, "
-         "constraint failures on the first or a later row; table filter (5 regexps or none) and row-ids-only; a program is non-trivial when it has a "
+         "constraint failures on the first or a later row; table filter (5 regexps or none) and row-ids-only; one program in three also changes the schema of logs/aux_tbl/big_tbl (same width: RENAME COLUMN, DROP+ADD COLUMN, DROP TABLE+CREATE TABLE with renamed columns in another order; other width: ADD COLUMN, DROP COLUMN, re-create wider), each change preceded by a delivered write and followed by 3-4 committed writes to that table in separate requests, with or without read requests in between; a program is non-trivial when it has a "
          "multi-statement request, >= 1 failing statement, >= 1 statement changing several rows and >= 2 kinds of operation delivered; distinct by program text",
     trusted=["SQLite hook semantics (hypothesis in Proofs.C27.trace_of): pre-update hook once per row change before it is made, also when undone later; "
              "commit hook once per committed transaction; rollback hook once per rolled-back transaction",
-             "ColumnNames(table) at commit time gives the table's column names (false right after a schema change: see known findings)",
+             "db.ColumnNames answers with the names of the schema its pooled read-only connection had when it last stepped a statement (marker Schema in the model trace; the first commit after a schema change without a read in between is therefore described with the old names: known finding, bounded)",
              "column values are opaque tokens in the model; normalizeCDCValues/getV type switches are checked by the oracle only",
              "Go regexp for the table filter (the model gets the set of table names it matches)"],
-    assumptions=["WITHOUT ROWID tables, triggers, savepoints and schema changes inside a program are not generated",
+    assumptions=["WITHOUT ROWID tables, triggers and savepoints are not generated; schema changes are their own requests (not inside a transaction with row changes, except the create-table probe)",
                  "within one statement the order of events is compared up to permutation; across statements and groups exactly"],
-    level_text="C27_delivered_is_all_attempted_changes_of_committed_transactions, C27_events_exact_partial, C27_ids_only_has_no_values, "
+    level_text="C27_delivered_is_all_attempted_changes_of_committed_transactions, C27_events_exact_partial, C27_events_exact_partial_across_schema_changes (phases of constant schema; the transient window after a schema change is excluded), C27_ids_only_has_no_values, "
                "C27_filter_only_matching hold for every request execution / callback trace of any length; C27_events_exact_refuted shows the full statement "
                "is false (statement undone inside an explicit transaction that commits). Model = convertFn + CDCStreamer + MarshalToEnvelopeJSON run on the "
                "callback trace captured on a twin database and compared with what the configured streamer delivered.",
